@@ -69,11 +69,16 @@ Section Inst.
 
   (* the network itself with queues of capacity ONE (a second message blocks the sender), run by a scheduler
      that always prefers the highest-numbered chain that can move *)
-  Definition net_run := run_sched _ _ (Some 1%nat) (total_steps (e_sched c) (e_I c) (e_exchange c) n 0 (e_P c) + 1) (rev (seq 0 n)) the_net.
+  Definition steps_buffered := total_steps (e_sched c) (e_I c) (e_exchange c) 10 n 0 (e_P c).
+  Definition steps_sync := total_steps (e_sched c) (e_I c) (e_exchange c) 6 n 0 (e_P c).
+  Definition net_run := run_sched _ _ (Some 1%nat) (steps_buffered + 1) (rev (seq 0 n)) the_net.
+  (* ... and with synchronous pipes (send and receive are one joint step) *)
+  Definition net_run_sync := srun_sched _ _ (steps_sync + 1) (rev (seq 0 n)) the_net.
 
   Definition c12_guard : bool := run_definedb (e_sched c) (e_I c) (e_exchange c) n (e_P c).
   Definition c12_check : bool := c12_guard && outs_ok the_final && events_ok.
   Definition c12_check_net : bool :=
-    all_done _ _ (fst net_run) && outs_ok (procs (fst net_run))
-    && Nat.eqb (snd net_run) (total_steps (e_sched c) (e_I c) (e_exchange c) n 0 (e_P c)).
+    all_done _ _ (fst net_run) && outs_ok (procs (fst net_run)) && Nat.eqb (snd net_run) steps_buffered.
+  Definition c12_check_sync : bool :=
+    all_done _ _ (fst net_run_sync) && outs_ok (procs (fst net_run_sync)) && Nat.eqb (snd net_run_sync) steps_sync.
 End Inst.
